@@ -56,7 +56,7 @@ Definition not_nestedb (toks : list tok) (k0 : nat) : bool :=
 (* ------------------------------------------------------------------------------------------
    Supported layouts: the scanned logical line is a sequence of call segments
        glue  NAME(f)  gap  `lambda` body  stop
-   where glue has no `lambda`, no NEWLINE token, gap has no NAME and no `,`/`)`, body is the
+   where glue has no `lambda`, no NEWLINE token, gap has no NAME and no NEWLINE token, body is the
    argument (brackets balanced relative to its start, no `,`/`)` at depth 0), stop is `,` or `)`.
    Only the last segment's body may contain a line break. *)
 Record segment := mkSeg { g_glue : list tok; g_name : string; g_row : nat; g_gap : list tok;
@@ -81,7 +81,7 @@ Definition glue_tok_ok (first : bool) (kw : list string) (t : tok) : bool :=
   && (if first then negb (is_kind KName t && existsb (String.eqb (ttext t)) kw)
       else negb (is_name "lambda" t) && negb (is_kind KNewline t)).
 Definition gap_tok_ok (t : tok) : bool :=
-  no_err t && negb (is_kind KName t) && negb (is_kind KNewline t) && negb (is_stop t).
+  no_err t && negb (is_kind KName t) && negb (is_kind KNewline t).
 
 Definition seg_toks (g : segment) : list tok :=
   g_glue g ++ [mkTok (g_row g) KName (g_name g)] ++ g_gap g
@@ -150,6 +150,77 @@ Definition seg_parsed (P : parse_fn) (g : segment) : bool :=
 Definition supported_layoutb (P : parse_fn) (L : nat) (caller : string) (args : list string)
            (gs1 : list segment) (g0 : segment) (gs2 : list segment) (tail : list tok) : bool :=
   segs_ok true ["lambda"] (gs1 ++ g0 :: gs2)
+  && forallb (seg_parsed P) (gs1 ++ g0 :: gs2)
+  && end_ok (gs1 ++ g0 :: gs2) tail
+  && seg_matches P L caller args g0
+  && forallb (fun g => negb (seg_matches P L caller args g)) (gs1 ++ gs2).
+
+(* ------------------------------------------------------------------------------------------
+   The def branch: a function (not a lambda) was passed.  The scan of the first stream looks for
+   the first `def` NAME; the lambda machinery (candidates, P, caller, parameter names) is not used. *)
+Fixpoint def_scan (ts : list tok) : scan_res :=
+  match ts with
+  | [] => ScNone
+  | t :: r => if is_kind KErr t then ScCrash (ttext t)
+              else if is_name "def" t then ScDef else def_scan r
+  end.
+Definition one_return (d : def_src) : bool :=
+  match d with
+  | DSBody b => match filter not_doc b with [SReturn] => true | _ => false end
+  | DSExc _ => false
+  end.
+(* supported def layout: the stream read from the function's first line (its `def` line, or its first
+   decorator line) reaches a `def` NAME before any tokenizer error, and the body CPython parses from
+   inspect.getsource is docstring expressions plus exactly one `return` *)
+Definition def_layoutb (toks : list tok) (d : def_src) : bool :=
+  match def_scan toks with ScDef => one_return d | _ => false end.
+
+(* ------------------------------------------------------------------------------------------
+   A purely syntactic recogniser for argument bodies: brackets properly nested (a stack, every
+   closer matches the innermost opener), no `,` outside brackets, no tokenizer error.  Proved to
+   imply [body_balanced] (Proofs/LambdaFinderLayouts.v), i.e. the three independent counters of
+   tokens_till see exactly what a real bracket matcher sees on well-formed source. *)
+Inductive br := BPar | BBrk | BBrc.
+Definition br_eqb (a b : br) : bool :=
+  match a, b with BPar, BPar | BBrk, BBrk | BBrc, BBrc => true | _, _ => false end.
+Definition opener (t : tok) : option br :=
+  if is_op "(" t then Some BPar else if is_op "[" t then Some BBrk else if is_op "{" t then Some BBrc else None.
+Definition closer (t : tok) : option br :=
+  if is_op ")" t then Some BPar else if is_op "]" t then Some BBrk else if is_op "}" t then Some BBrc else None.
+Fixpoint nested_ok (stack : list br) (ts : list tok) : bool :=
+  match ts with
+  | [] => match stack with [] => true | _ => false end
+  | t :: r =>
+      if is_kind KErr t then false else
+      match opener t with
+      | Some b => nested_ok (b :: stack) r
+      | None =>
+          match closer t with
+          | Some b => match stack with b' :: s' => br_eqb b b' && nested_ok s' r | [] => false end
+          | None => if is_op "," t then (match stack with [] => false | _ => nested_ok stack r end)
+                    else nested_ok stack r
+          end
+      end
+  end.
+
+Definition seg_syn_ok (first last : bool) (kw : list string) (g : segment) : bool :=
+  forallb (glue_tok_ok first kw) (g_glue g)
+  && (if first then negb (existsb (String.eqb (g_name g)) kw) else negb (String.eqb (g_name g) "lambda"))
+  && forallb gap_tok_ok (g_gap g)
+  && nested_ok [] (g_body g)
+  && is_stop (g_stop g)
+  && (last || negb (existsb is_nl (g_body g))).
+Fixpoint segs_syn_ok (first : bool) (kw : list string) (gs : list segment) : bool :=
+  match gs with
+  | [] => true
+  | [g] => seg_syn_ok first true kw g
+  | g :: r => seg_syn_ok first false kw g && segs_syn_ok false kw r
+  end.
+(* the recogniser: token classes and bracket nesting are syntactic; the parse facts (every segment's
+   extent is parsed by CPython, exactly g0 has row L / caller / parameter names) are CPython's *)
+Definition recognisedb (P : parse_fn) (L : nat) (caller : string) (args : list string)
+           (gs1 : list segment) (g0 : segment) (gs2 : list segment) (tail : list tok) : bool :=
+  segs_syn_ok true ["lambda"] (gs1 ++ g0 :: gs2)
   && forallb (seg_parsed P) (gs1 ++ g0 :: gs2)
   && end_ok (gs1 ++ g0 :: gs2) tail
   && seg_matches P L caller args g0
